@@ -391,7 +391,8 @@ fn c10_model(zone_name: &str, az: f32, tilt: f32, fsh: usize, cons: usize, mult:
 
 pub fn run10(ctx: &Ctx) -> i32 {
     let zones: Vec<&str> = match ctx.tier {
-        Tier::Quick => vec!["D3", "A3c", "E1", "Alfa1c"],
+        // quick: zones that share the summer-severity digit within the same region (D3/B3, A3c/Alfa3c) and one that does not
+        Tier::Quick => vec!["D3", "B3", "A3c", "Alfa3c", "E1"],
         Tier::Thorough => ALL_ZONES.to_vec(),
     };
     let azs = az_alphabet();
